@@ -2140,10 +2140,12 @@ class tensor:
         # Will the size change? If so we first need to resize x
         n = self.ndims
         sliceCheck = []
-        for element in subs:
+        for dim, element in enumerate(subs):
             if isinstance(element, slice):
                 if element.stop is None:
-                    sliceCheck.append(1)
+                    # an open slice covers the current extent (a new mode starts
+                    # with extent 1); it never asks for growth by itself
+                    sliceCheck.append(self.shape[dim] - 1 if dim < n else 0)
                 else:
                     sliceCheck.append(element.stop - 1)
             elif isinstance(element, Iterable):
